@@ -1842,6 +1842,9 @@ func (data *Data) DropRetentionPolicy(database, name string) error {
 		return nil
 	}
 	delete(di.RetentionPolicies, name)
+	if di.DefaultRetentionPolicy == name {
+		di.DefaultRetentionPolicy = ""
+	}
 
 	return nil
 }
